@@ -184,19 +184,35 @@ known("KF28-builtins-raise-internal-exceptions-on-ill-typed-arguments", ["C27"],
       "ill-typed or ill-moded calls of some builtins escape as internal Python exceptions instead of ProbLogError subclasses: arithmetic comparison of a number with a string (TypeError in _builtin_lt/le/gt/ge), a conjunction (a,b) passed to call/N, =../2, try_call/N (And.__init__ TypeError in Term.with_args), findall/all with a non-callable goal (AttributeError in ClauseDB._compile / _get_head), call_in_scope / find_scope with unbound or non-list scopes, numbervars/2,3 on an unbound variable, and the state builtins set_state/reset_state/check_state/condition (ModuleNotFoundError: absolute import of engine_stack; after fixing the import reset_state fails in Context())",
       "t :- 0 < \"s\". query(t).   t :- call((a,b), 1). query(t).   t :- findall(-1, [1,2], _). query(t).   t :- check_state(X). query(t).",
       match_any=[{"clause": "crash", "error": e, "site": st} for (e, st) in C27_SITES])
-PR_CL = ["round-trip-changes-term", "printed-text-does-not-parse", "parsed-term-differs-from-ast"]
+# C17: the edges (root, argument position, kind of the argument) whose print / re-parse round trip fails on the pinned tree,
+# enumerated once by tools/c17_edges.py over the whole operator table (tools/c17_known_edges.json, committed)
+_E = json.load(open('/verif/tools/c17_known_edges.json'))
+def _fam(edge):
+    root, child = edge.split('@')[0], edge.split(':')[-1]
+    if root in ('^/2', '**/2') or child in ('^/2', '**/2'):
+        return 'power'
+    if child in (';/2', '->/2', ',/2') and root not in ('-/1', '\\/1', '\\+/1'):
+        return 'control'
+    return 'prefix'
+def _m(fam):
+    # whether a bad edge shows as a changed term or as unparsable text depends on the surrounding term
+    return [{"clause": ["round-trip-changes-term", "printed-text-does-not-parse"], "shape": sorted({e for c, e in _E if _fam(e) == fam})}]
 known("KF29-printer-prefix-operators", ["C17"],
-      "the term printer does not parenthesise applications of prefix operators (\\+, -, \\): '\\+(a)>>b' is printed for (\\+a)>>b and re-parsed as \\+(a>>b); '-[a]' / '\\[a]' are printed for -([a]) and are not valid text; -(1) is read as the number -1",
+      "the term printer does not parenthesise applications of prefix operators (\\+, -, \\): '\\+(a)>>b' is printed for (\\+a)>>b and re-parsed as \\+(a>>b); '-[a]' / '\\[a]' are printed for -([a]) and are not valid text; '-a+b' is printed for -(a+b); -(1) is read as the number -1. Identified by the edge (root, argument position, argument kind) of the smallest failing subterm; the list is the complete enumeration over the operator table on the pinned tree",
       "Term.from_string('(\\+ (a)) >> b') prints as '\\+(a)>>b', which parses as '\\+'('>>'(a,b))",
-      match_any=[{"clause": c, "prefix_operator": True} for c in PR_CL])
+      match_any=_m('prefix') + [{"clause": "parsed-term-differs-from-ast", "shape": "-/1(number)"}])
 known("KF30-printer-control-operators-as-operands", ["C17"],
-      "the term printer does not parenthesise ;, -> and , when they are operands of another operator, arguments of a compound or list elements: f(a ; b) is printed 'f(a; b)' (rejected by the parser), (b ; X) =:= Y is printed 'b; X=:=Y'",
+      "the term printer does not parenthesise ; and -> (and a left-nested ,) when they are operands of another operator, arguments of a compound or list elements: f(a ; b) is printed 'f(a; b)' (rejected by the parser), (b ; X) =:= Y is printed 'b; X=:=Y'. Identified by edge, as KF29",
       "Term.from_string(\"f(('A b' ; b), c)\") prints as \"f('A b'; b,c)\" -> ParseError",
-      match_any=[{"clause": c, "control_operator_nested": True} for c in PR_CL])
+      match_any=_m('control'))
 known("KF31-printer-parser-power-operator", ["C17"],
-      "x^y (and **) next to an operator of lower binding strength does not round-trip: (V1 ^ a) << b is printed 'V1^a<<b' and re-parsed as V1 ^ (a << b)",
+      "x^y (and **) next to an operator of lower binding strength does not round-trip: (V1 ^ a) << b is printed 'V1^a<<b' and re-parsed as V1 ^ (a << b). Identified by edge, as KF29",
       "Term.from_string('(V1 ^ a) << [a]') -> 'V1^a<<[a]' -> '^'(V1, '<<'(a,[a]))",
-      match_any=[{"clause": c, "power_operator": True} for c in PR_CL])
+      match_any=_m('power'))
+known("KF34-float-literal-overflow-prints-as-atom", ["C17"],
+      "a float literal beyond the double range (1e400) is read as the float inf, which str() prints as 'inf' - read back as the atom inf",
+      "str(Term.from_string('f(1e400)')) == 'f(inf)'; Term.from_string('f(inf)') has an atom argument",
+      match={"clause": "round-trip-changes-term", "shape": "literal", "literal": "1e400"})
 known("KF32-lfi-annotated-disjunction-update-not-em", ["C24"],
       "learning an annotated disjunction with t(_) heads is not an EM step: LFIProblem._update counts every head's lfi_par once per head of the AD (denominator x number of heads), "
       "_normalize_weights (normalize=True, CLI default) then rescales the heads to the whole available mass (no 'none of the heads' outcome), and infer_AD_values rewrites the observations "
@@ -213,6 +229,12 @@ fixed("FX22-parser-indexerror-sharp-open", ["C17", "C27"], "842652f", "parsing '
 fixed("FX23-kbest-explanation-head", ["C23"], "91c12a7",
       "explain: the proofs of queries that share a formula node were all printed under the first such query's name (p(c1) three times for p(c1), p(c2), p(c3))",
       "0.1::f(c3). d(c1). d(c2). d(c3). p(X) :- f(Y), d(X), d(c2). p(Y) :- f(Y). query(p(V)).  (problog explain)")
+fixed("FX24-negated-number-head-typeerror", ["C17", "C27"], "882979b",
+      "parsing '\\+1 <- a.' (also '0.3::\\+1.') raised TypeError in ExtendedPrologFactory.neg_head_literal_to_pos_literal instead of a ProbLogError",
+      "list(PrologString('\\+1<-a.'))   (the text Term.__repr__ prints for \\+(1 < -a))")
+fixed("FX25-empty-parentheses", ["C17", "C27"], "0e7858e",
+      "parsing '().' raised a bare Exception ('Unknown type: None') in build_program; 'a :- ().' and 'a(()).' produced clauses containing None",
+      "list(PrologString('().'))")
 fixed("FX1-break-cycles-true-child", ["C01", "C09"], "29bdee9",
       "AssertionError in LogicFormula.get_node(0) from _break_cycles when a disjunction below an evidence node contains the TRUE node",
       "0.1::h(c1). d(c1). d(c2). p(X) :- d(X), r(c1). p(Y) :- d(Y). r(X) :- p(X). r(Y) :- d(Y), h(X). query(p(c1)). evidence(r(c1)).")
